@@ -163,6 +163,10 @@ def case(args):
     return t3.success_case(sp, yield_seed=ys, extra_check=at_return, timeout=90, replays=("net", "port"))
 
 
+def dangling_stream(args):
+    return t3.dangling_stream_case(args[0], args[1], "dangling-stream")
+
+
 def run(rep, tier, seed):
     proved = vlib.prove(rep, MODULE, THEOREMS)
     ok, msg = vlib.build_ocaml()
@@ -172,10 +176,11 @@ def run(rep, tier, seed):
     results = t3.run_many(case, [(seed, i) for i in range(n)])
     results += t3.run_many(streaming_rerun_case, [(seed, i) for i in range(n // 8)])
     results += t3.run_many(component_case, [(seed, i) for i in range(n // 4)])
+    results += t3.run_many(dangling_stream, [(seed, i) for i in range(n // 8)])
     t3.report_t3(rep, MODULE, proved, results, "T3 termination / at-return snapshot")
     rep.cov["evaluations"] = len(results)
     rep.cov["distinct_nontrivial"] = len({r["spec"] for r in results if r["ntasks"] >= 1})
-    rep.cov["rule"] = "workflow shapes (independent leaves with a slow one, a process without out-ports beside a slow leaf, a single port-less process, chains with more tasks than buffer slots, capacity-1 diamonds, out-port-less leaf plus parameter-only process) and random DAGs, SCIPIPE_BUFSIZE in {1,2,3}; streamed producer/consumer pairs run once and then twice more in place; workflows with FileSplitter (line counts that are exact multiples of the limit included), Concatenator and FileCombinator; a run must terminate (90 s bound), exit 0, and the snapshot the program takes right after Run returns must contain every predicted output and no temp dir / FIFO; every started command has ended; non-trivial = at least one task"
+    rep.cov["rule"] = "workflow shapes (independent leaves with a slow one, a process without out-ports beside a slow leaf, a single port-less process, chains with more tasks than buffer slots, capacity-1 diamonds, out-port-less leaf plus parameter-only process) and random DAGs, SCIPIPE_BUFSIZE in {1,2,3}; streamed producer/consumer pairs run once and then twice more in place; workflows with FileSplitter (line counts that are exact multiples of the limit included), Concatenator and FileCombinator; streaming out-ports that nobody consumes (dangling, or the consumer cut off by RunTo, alone or beside a consumed stream; payloads up to several pipe buffers); a run must terminate (90 s bound), exit 0, and the snapshot the program takes right after Run returns must contain every predicted output and no temp dir / FIFO; every started command has ended; non-trivial = at least one task"
     rep.cov["samples"] = [results[0]["spec"], results[2]["spec"]]
     rep.notes["input_distribution"] = {"runs": len(results), "tasks_executed_total": sum(r["ntasks"] for r in results), "max_wall_s": round(max(r["wall"] for r in results), 2)}
     rep.assump += ["a started command eventually exits (H-term)", "SCIPIPE_BUFSIZE >= 1", "theorems: merge-free balanced graphs; other shapes by correspondence"]
